@@ -1,4 +1,4 @@
-import ElvisVerif.Props.C14d
+import ElvisVerif.Props.C14e
 import ElvisVerif.Props.C04
 import ElvisVerif.Props.C05
 import ElvisVerif.Props.C08
@@ -250,14 +250,14 @@ theorem c04_end_to_end_broadcast (env : Env) (n : Elvis.Link.Net) (hn : n.WF)
   rw [this]
   exact Elvis.Link.count_one_of_nodup _ _ hn.nodup ht
 
-/-! ## non-vacuity: a sender's bytes exist, and the machine of Props/C14d.lean receives them -/
+/-! ## non-vacuity: a sender's bytes exist, and the machine of Props/C14e.lean receives them -/
 
 namespace Example
 
 def src : Endpoint := ⟨167772162, 6000⟩
 def dst : Endpoint := ⟨167772161, 5000⟩
 
-/-- exactly the frame `goodUdp` of Props/C14d.lean -/
+/-- exactly the frame `goodUdp` of Props/C14e.lean -/
 theorem sent_good : Sent false src dst [0xab] goodUdp := by
   refine ⟨{ tos := 0, payloadLength := 9, identification := 0, fragmentOffset := 0, flags := 0, ttl := 30,
             protocol := 17, source := 167772162, destination := 167772161 },
